@@ -2,7 +2,8 @@
 SPECIFICATION Spec
 CONSTANTS Names <- NamesTiny
           Types <- TypesAll
-          Bodies = {"x"}
+          Bodies <- BodyX
+          Readers <- ReadPlain
           Modes = {0}
           Mtimes <- NoMeta
           MaxNodes = 4
